@@ -453,6 +453,10 @@ class BinnedTrees(Iterable[AngularTree]):
             new._patch = patch
             new.binning = binning
 
+            # the binning file marks the pickled trees as complete and records
+            # what they were built for, invalidate it before changing the trees
+            new.binning_file.unlink(missing_ok=True)
+
             with new.trees_file.open(mode="wb") as f:
                 trees = build_trees(patch, binning, leafsize=leafsize)
                 pickle.dump(trees, f)
@@ -464,10 +468,12 @@ class BinnedTrees(Iterable[AngularTree]):
                 edges = binning.edges
                 closed_left = binning.closed == Closed.left
 
-            with new.binning_file.open(mode="wb") as f:
+            temp_file = new.binning_file.with_suffix(".tmp")
+            with temp_file.open(mode="wb") as f:
                 byte = int(closed_left).to_bytes(1, byteorder="big")
                 f.write(byte)
                 edges.tofile(f)
+            temp_file.replace(new.binning_file)  # never visible half-written
 
         return new
 
